@@ -73,6 +73,9 @@ def configs(tier, seed=1):
     cs.append(("ctor@hi", dict(MaxObj=1, MaxOps=3, MaxClose=2, MaxPlug=0, Kinds=hi(ALL_KINDS), WithFail="TRUE",
                                WithUninj="FALSE", WithGc="FALSE", WithRehs="TRUE",
                                TruncK="{" + ", ".join(map(str, cuts if q else (1, 60, 128))) + "}"), 2))
+    # the IO context is closed before its objects; the harness takes the released number; Close again
+    cs.append(("ioclose", dict(MaxObj=1, MaxOps=6, MaxClose=2, MaxPlug=1, Kinds=kinds(["tcp", "file"] if q else ["tcp", "acc", "file", "pkt", "lst"]),
+                               WithFail="FALSE", WithUninj="FALSE", WithGc="TRUE", WithRehs="FALSE", TruncK="{1}"), 1))
     if not q:
         cs.append(("close3", dict(MaxObj=3, MaxOps=6, MaxClose=2, MaxPlug=1,
                                   Kinds=kinds(["timer", "tcp", "lst", "adp", "ws"]), WithFail="FALSE",
